@@ -200,8 +200,7 @@ def r3_codec(ctx, seven):
               f'len(LETTERS) = {seven}: the modulus of the reader equals the octave factor of compute_position',
               f'len(LETTERS) = {len(letters)}, octave factor {seven}')
     # identity under G2
-    gb = ctx.prog.func(f'{GK}.GClef.bottom_line')
-    r = symex.returns(gb)
+    gb, r = clef_bottom_line(ctx, 'GClef')
     okg = len(r) == 1 and F.same(ctx, gb, r[0][1], "AgnosticPitch('E', 4)")
     ctx.check(okg, 'R3', gb.loc, gb.qualname, 'g2-identity',
               'bottom_line(GClef) = E4: position 0 <-> e, so the agnostic spelling under G2 is the pitch itself',
@@ -452,6 +451,41 @@ def _callback_values(ctx, fi, node, depth=0):
     return out
 
 
+def clef_bottom_line(ctx, clsname):
+    """(method, [(cond, value, path)]) of bottom_line for objects of the clef class: its own method or the one it inherits, with
+    the class-level constants read through self / cls replaced by the values this class gives them (a data-driven hierarchy:
+    one shared method, one table per clef) and subscripts of constant displays resolved."""
+    cls_ = ctx.prog.cls(f'{GK}.{clsname}')
+    f = ctx.prog.find_method(cls_, 'bottom_line')
+    if f is None:
+        raise AnalysisError(f'anchor vanished: {clsname}.bottom_line')
+
+    class Fold(ast.NodeTransformer):
+        def visit_Attribute(self, n):
+            self.generic_visit(n)
+            if isinstance(n.value, ast.Name) and n.value.id in ('self', 'cls') and isinstance(n.ctx, ast.Load) \
+                    and ctx.prog.find_class_attr(cls_, n.attr) is not None:
+                ok, v = ctx.ce.try_eval(ast.Attribute(value=ast.Name(id='cls', ctx=ast.Load()), attr=n.attr, ctx=ast.Load()), cls_.module, cls_, {})
+                if ok and isinstance(v, (str, int, tuple, list)) and not isinstance(v, bool):
+                    try:
+                        return ast.parse(repr(v), mode='eval').body
+                    except SyntaxError:
+                        return n
+            return n
+
+        def visit_Subscript(self, n):
+            self.generic_visit(n)
+            if isinstance(n.value, (ast.Tuple, ast.List)) and isinstance(n.slice, ast.Constant) and isinstance(n.slice.value, int) \
+                    and -len(n.value.elts) <= n.slice.value < len(n.value.elts):
+                return n.value.elts[n.slice.value]
+            return n
+    out = []
+    for c_, v_, sp_ in symex.returns(f):
+        from ..astutil import clone as _clone
+        out.append((c_, ast.fix_missing_locations(Fold().visit(_clone(v_))) if v_ is not None else v_, sp_))
+    return f, out
+
+
 def r5_clefs(ctx):
     """The checker's evaluator interprets create_clef on the clef texts of the claimed domain: the class of the object that is
     built on the path taken - with and without octave marks."""
@@ -483,8 +517,7 @@ def r5_clefs(ctx):
         ctx.check(got == 'raise', 'R5', cc.loc, cc.qualname, f'clef-invalid-line:{text}', f'{text} is rejected', f'{text} -> {got}')
     # bottom_line of each clef is a constant AgnosticPitch
     for clsname in set(want.values()):
-        f = ctx.prog.func(f'{GK}.{clsname}.bottom_line')
-        r = symex.returns(f)
+        f, r = clef_bottom_line(ctx, clsname)
         ok = len(r) == 1 and isinstance(r[0][1], ast.Call) and src(r[0][1].func) == 'AgnosticPitch' and \
             all(isinstance(a, ast.Constant) for a in r[0][1].args)
         ctx.check(ok, 'R5', f.loc, f.qualname, f'bottom-line-constant:{clsname}', f'{clsname}.bottom_line is a constant pitch '
